@@ -355,8 +355,16 @@ def run_case(ctx, case):
         ctx.violation(f"device-state/{f0}", f"after `control {' '.join(args)}` the device differs from reported-state+settings: {diffs}", case)
     if any_apply:
         if not model.controls:
-            bad = True
-            ctx.violation("nothing-applied", f"`control {' '.join(args)}` exited 0 but no control command reached the device", case)
+            requested_beep = any(n == "beep" for n, _, _ in pairs)
+            requested_props = any(n in ("rate_select", "horizontal_swing_angle", "vertical_swing_angle", "ieco", "breeze_away", "breeze_mild", "breezeless")
+                                  for n, _, _ in pairs)
+            if diffs or requested_beep or requested_props:
+                bad = True
+                ctx.violation("nothing-applied", f"`control {' '.join(args)}` exited 0 but no control command reached the device", case)
+            else:
+                # the unit already reported every requested value and ends up in exactly the expected state: whether a control
+                # command is sent for that is the tool's business
+                ctx.bump("no-control-command-sent: unit already held every requested value (not judged)")
         else:
             b = acstate.decode_0x40(model.controls[-1])
             if b["beep"] != exp_beep:
